@@ -387,6 +387,26 @@ func (b blindTuple) verify() (ok bool, disagree bool) {
 	return v1 && v2, v1 != v2
 }
 
+func (b blindTuple) String() string {
+	return fmt.Sprintf("{e=%s s=%s A=%s B_=%s C_=%s}", b.E, b.S, hexPt(b.A), b.B, b.C)
+}
+
+func showDLEQ(d *cashu.DLEQProof) string {
+	if d == nil {
+		return "none"
+	}
+	return fmt.Sprintf("{e=%s s=%s r=%s}", d.E, d.S, d.R)
+}
+
+// showProof / showSig render without raw secret bytes (secrets are arbitrary bytes here).
+func showProof(p cashu.Proof) string {
+	return fmt.Sprintf("{amount=%d id=%s secret(hex)=%x C=%s dleq=%s}", p.Amount, p.Id, p.Secret, p.C, showDLEQ(p.DLEQ))
+}
+
+func showSig(s cashu.BlindedSignature) string {
+	return fmt.Sprintf("{amount=%d id=%s C_=%s dleq=%s}", s.Amount, s.Id, s.C_, showDLEQ(s.DLEQ))
+}
+
 type namedBlind struct {
 	name string
 	b    blindTuple
@@ -510,7 +530,7 @@ func propDLEQ(t *rapid.T) {
 	for _, g := range bases[tamperBase : tamperBase+1] {
 		for _, tm := range blindTampers(t, g.tup, g.e, g.s, A2p, A, B, C) {
 			if ok, dis := tm.b.verify(); ok || dis {
-				violate(t, "dleq_tamper_accepted|"+tm.name, "blind-signature DLEQ (%s prover) still verifies after tamper %s (entry points disagree: %v): %+v; %s", g.who, tm.name, dis, tm.b, ctx)
+				violate(t, "dleq_tamper_accepted|"+tm.name, "blind-signature DLEQ (%s prover) still verifies after tamper %s (entry points disagree: %v): %s; %s", g.who, tm.name, dis, tm.b, ctx)
 			}
 			rec.Class("tamper_blind=" + tm.name)
 		}
@@ -573,7 +593,7 @@ func propDLEQ(t *rapid.T) {
 	}{{"own", mk(own.E, own.S), eBig, sBig}, {"ref", mk(refTuple.E, refTuple.S), eR, sR}}
 	for _, g := range pbases {
 		if ok, dis := verifyProof(g.p, Ap, keyset); !ok {
-			violate(t, "dleq_proof_with_r_rejected", "third-party verification of the wallet proof (%s prover) fails (disagree %v): %+v dleq=%+v; %s", g.who, dis, g.p, *g.p.DLEQ, ctx)
+			violate(t, "dleq_proof_with_r_rejected", "third-party verification of the wallet proof (%s prover) fails (disagree %v): %s; %s", g.who, dis, showProof(g.p), ctx)
 		}
 	}
 	for _, g := range pbases[tamperBase : tamperBase+1] {
@@ -624,7 +644,7 @@ func propDLEQ(t *rapid.T) {
 					violate(t, "dleq_tamper_accepted|proof_r_removed", "proof DLEQ verifies without r; %s", ctx)
 				}
 			} else if ok, dis := verifyProof(tm.p, Ap, keyset); ok || dis {
-				violate(t, "dleq_tamper_accepted|proof_"+tm.name, "wallet proof (%s prover) still verifies after tamper %s (disagree %v): %+v dleq=%+v; %s", g.who, tm.name, dis, tm.p, *tm.p.DLEQ, ctx)
+				violate(t, "dleq_tamper_accepted|proof_"+tm.name, "wallet proof (%s prover) still verifies after tamper %s (disagree %v): %s; %s", g.who, tm.name, dis, showProof(tm.p), ctx)
 			}
 			rec.Class("tamper_proof=" + tm.name)
 		}
@@ -883,12 +903,11 @@ func publishedKey(t fataler, w *world.World, id string, amount uint64) (*secp256
 // the reference-derived key, and the wallet-style proof with r as a third party would check it.
 func checkIssued(t fataler, w *world.World, it issued, where string) {
 	sig, out := it.sig, it.out
-	ctx := fmt.Sprintf("%s: op=%s B_=%s sig=%+v", where, it.op, out.Msg.B_, sig)
+	ctx := fmt.Sprintf("%s: op=%s B_=%s sig=%s", where, it.op, out.Msg.B_, showSig(sig))
 	if sig.DLEQ == nil || sig.DLEQ.E == "" || sig.DLEQ.S == "" {
 		violate(t, "mint_signature_without_dleq", "%s", ctx)
 		return
 	}
-	ctx += fmt.Sprintf(" dleq=%+v", *sig.DLEQ)
 	if sig.DLEQ.R != "" {
 		violate(t, "mint_signature_dleq_carries_r", "%s", ctx)
 	}
@@ -937,7 +956,7 @@ func checkIssued(t fataler, w *world.World, it issued, where string) {
 	proof := cashu.Proof{Amount: sig.Amount, Id: sig.Id, Secret: out.Secret, C: hexPt(C),
 		DLEQ: &cashu.DLEQProof{E: sig.DLEQ.E, S: sig.DLEQ.S, R: hex.EncodeToString(rPriv.Serialize())}}
 	if !nut12.VerifyProofDLEQ(proof, Kpub) || !nut12.VerifyProofsDLEQ(cashu.Proofs{proof}, crypto.WalletKeyset{Id: sig.Id, PublicKeys: allKeys}) {
-		violate(t, "mint_proof_dleq_rejected_by_third_party", "proof %+v dleq %+v; %s", proof, *proof.DLEQ, ctx)
+		violate(t, "mint_proof_dleq_rejected_by_third_party", "proof %s; %s", showProof(proof), ctx)
 	}
 	if !w.GenuineRef(proof) {
 		violate(t, "mint_unblinded_not_k_times_Y", "unblinded C %s is not k*H(secret) by the reference; %s", proof.C, ctx)
@@ -970,7 +989,7 @@ func tamperIssued(t *rapid.T, w *world.World, it issued, kind string) bool {
 	proof := cashu.Proof{Amount: sig.Amount, Id: sig.Id, Secret: out.Secret, C: hexPt(crypto.UnblindSignature(C_p, rPriv, Kpub)),
 		DLEQ: &cashu.DLEQProof{E: d.E, S: d.S, R: hex.EncodeToString(rPriv.Serialize())}}
 	otherAmount := uint64(1) << uint((bitOf(sig.Amount)+1+rapid.IntRange(0, 58).Draw(t, "tamper_amount"))%60)
-	ctx := fmt.Sprintf("tamper %s on signature %+v dleq %+v B_ %s", kind, sig, d, b)
+	ctx := fmt.Sprintf("tamper %s on signature %s B_ %s secret(hex) %x", kind, showSig(sig), b, out.Secret)
 	switch kind {
 	case "e+1":
 		d.E = hex32(addMod(e, 1))
@@ -1075,13 +1094,13 @@ func checkRestore(t fataler, w *world.World, items []issued, where string) {
 			field = "s"
 		}
 		if field != "" {
-			violate(t, "restored_signature_differs|"+field, "%s: made %+v dleq %+v, restored %+v dleq %+v", where, it.sig, it.sig.DLEQ, g, g.DLEQ)
+			violate(t, "restored_signature_differs|"+field, "%s: made %s, restored %s", where, showSig(it.sig), showSig(g))
 			continue
 		}
 		// still verifies in the wallet path against what the (possibly restarted) mint publishes now
 		Kpub, _ := publishedKey(t, w, g.Id, g.Amount)
 		if Kpub != nil && !nut12.VerifyBlindSignatureDLEQ(*g.DLEQ, Kpub, it.out.Msg.B_, g.C_) {
-			violate(t, "restored_dleq_rejected_under_published_key", "%s: %+v dleq %+v", where, g, *g.DLEQ)
+			violate(t, "restored_dleq_rejected_under_published_key", "%s: %s", where, showSig(g))
 		}
 		if it.persisted {
 			rec.Class("mint_signature_persisted_and_restored")
